@@ -423,11 +423,11 @@ def gen_ops(rng: common.Rng, cfg: dict[str, Any], n_ops: int, in_scope: bool = T
                 ops.append(["reopen"])
         else:
             ops.append(["clear"])
-    return exec_only(ops[:n_ops]) if inpl and in_scope else ops[:n_ops]
+    return exec_only(ops[:n_ops]) if wr_k and in_scope else ops[:n_ops]
 
 
 def exec_only(ops):
-    """The in-scope histories of a body with side effects on its inputs call `execute` only (what
+    """The in-scope histories of a body that writes into its input arrays call `execute` only (what
     `linearize` means for such a body is not defined by the property: see notes/C05.md)."""
     return [["exec", op[3]] + ([op[4]] if len(op) > 4 else []) if op[0] == "lin" else op for op in ops]
 
@@ -575,7 +575,7 @@ def gen_scenario(rng: common.Rng, cfg: dict[str, Any]) -> list[list[Any]]:
         for x in rng.sample(xs, 4):
             call(fresh_args(x, omit_defaults=False), rng.pick(["exec", "lin-all"]))
         call(fresh_args({focus: unit(0, sizes[focus], step * Fraction(19, 2))}, omit_defaults=False), "exec")
-    return exec_only(ops) if is_inplace(cfg) else ops
+    return exec_only(ops) if cfg.get("wr") else ops
 
 
 def gen_scenario_inplace(rng: common.Rng, cfg: dict[str, Any]) -> list[list[Any]]:
@@ -753,10 +753,10 @@ def in_quantifier(cfg, ops) -> bool:
     * the caller modifies only arrays it created or arrays it has passed in as inputs;
     * linearize(execute=False) asserts that the discipline was last executed with the same input
       values (checked on the values at run time by the runner, here only the syntactic part);
-    * a body with side effects on its input arrays is executed, not linearized (the uncached twin
-      itself linearizes such a body at the values its run left in the arrays, not at the inputs)."""
+    * a body that writes into its input arrays is executed, not linearized (the uncached twin itself
+      linearizes such a body at the values its run left in the arrays, not at the inputs)."""
     kept, passed = set(), set()
-    if is_inplace(cfg) and any(op[0] == "lin" for op in ops):
+    if cfg.get("wr") and any(op[0] == "lin" for op in ops):
         return False
     for op in ops:
         if op[0] == "keep":
@@ -1470,8 +1470,8 @@ def run(ctx) -> Result:
         "arrays never passed back, and returned Jacobian arrays, are probed only); linearize(execute=False) only right "
         "after an execution with the same input values; every input is passed or has a default",
         "bodies with side effects on their input arrays: they compute outputs (and Jacobian) from the call-time values, "
-        "do not write into default arrays of the discipline, are executed but not linearized in scope (the uncached twin "
-        "itself linearizes such a body at the values its run left in the arrays), and get one array per input name; "
+        "do not write into default arrays of the discipline, are executed but (when they write) not linearized in scope (the "
+        "uncached twin itself linearizes such a body at the values its run left in the arrays), and get one array per input name; "
         "their twin is called with fresh arrays holding the input values of the cached discipline's calls",
         "the run-counter clause (at most one run per distinct input) is checked for full caches with exact matching (t = 0)",
         "within-tolerance witness: ||x - w|| <= t (1 + max(||x||, ||w||)) per input name (the documentation and the code "
